@@ -213,6 +213,9 @@ def confirm(prop, v):
     stack = [a['x']]
     while stack:
         n = stack.pop(); shape[n] = kids(n); texts[n] = a['texts'][n - 1]; stack += shape[n]
+    # the native payload type prefixes its rendering with a marker of the mode it is asked for (`?` Debug, `#` alternate)
+    marker = ('?' if a['trait'] != 'Display' else '') + ('#' if a['alt'] else '')
+    texts = {n: marker + t for n, t in texts.items()}
     exp = reference(shape, texts, a['x'])
     mode = ('display' if a['trait'] == 'Display' else 'debug') + ('_alt' if a['alt'] else '')
     for profile in ('dev', 'release'):
